@@ -223,6 +223,21 @@ def received_canon(v):
     return tcanon(v)
 
 
+def plain_records(v):
+    """run-info content in comparable form (numpy scalars, paths and tuples keep their kind)"""
+    if isinstance(v, np.generic):
+        return ['np', type(v).__name__, v.item()]
+    if isinstance(v, Path):
+        return ['path', str(v)]
+    if isinstance(v, tuple):
+        return ['tuple', [plain_records(x) for x in v]]
+    if isinstance(v, dict):
+        return {k: plain_records(x) for k, x in v.items()}
+    if isinstance(v, list):
+        return [plain_records(x) for x in v]
+    return v
+
+
 def observed_form(value):
     """what a user gets out of `.value`, in comparable form"""
     if isinstance(value, LabMem):
@@ -385,6 +400,8 @@ def lab_run(task, spec, args):
     task.save_to_run_info({'lab_uid': uid, 'n': 1})
     task.save_to_run_info(0)        # falsy records are records too
     task.save_to_run_info({})
+    # statistics as they come out of numpy, a location, a shape: records are python objects, not only JSON-like data
+    task.save_to_run_info({'lab_uid': uid, 'mean': np.float64(0.25), 'count': np.int64(7), 'where': Path('out') / 'x', 'shape': (2, 3)})
     # a counter object recorded, updated and recorded again (each record shows the state at the moment it was added)
     from collections import defaultdict as _dd
     progress = _dd(int)
